@@ -702,6 +702,11 @@ impl NetcodeServer {
     pub fn verif_pending_addrs(&self) -> Vec<SocketAddr> {
         self.pending_clients.keys().copied().collect()
     }
+
+    /// The key sealing challenge tokens, so that a harness can read (never forge) the challenges it observes.
+    pub fn verif_challenge_key(&self) -> [u8; NETCODE_KEY_BYTES] {
+        self.challenge_key
+    }
 }
 
 fn find_client_mut_by_id(clients: &mut [Option<Connection>], client_id: u64) -> Option<&mut Connection> {
